@@ -20,7 +20,7 @@ ROOT = os.path.dirname(os.path.dirname(os.path.abspath(__file__)))
 # which contract modules serve which property
 PROP_MODULES = {
     "C12": ["c12"],
-    "C11": ["c11"],
+    "C11": ["c11", "c12"],
     "C15": ["c15"],
     "C08": ["c08"],
     "C07": ["c07"],
